@@ -249,6 +249,9 @@ class Formatter(FormatterInterface):
             "asin": "arcsin",
             "atan": "arctan",
             "atan2": "arctan2",
+            "atan_2": "arctan2",
+            "min_value": "minimum",
+            "max_value": "maximum",
             "acosh": "arccosh",
             "asinh": "arcsinh",
             "atanh": "arctanh",
